@@ -30,6 +30,9 @@ T = {
  'C06': ('E1-simnet', 'model_checking', E1_TECH,
          'One hard kill of every filter of chain/tee/rejoin pipelines inserted at every scheduling point of the reference run with restart delays 0 / 300 ms / CONN_TIMEOUT+200 ms / never: every live synchronized sink must process a new frame within CONN_TIMEOUT + 5 poll intervals and keep doing so; order oracle throughout.',
          E1_NOTE, '4 C06'),
+ 'C08': ('E1-simnet', 'model_checking', E1_TECH,
+         'Pipelines (chain-3, tee, rejoin) x position of the ending filter x ending (exit()/exception in init, setup, k-th process, send, recv, shutdown; stop event; exit_after as seconds, m:s string, @datetime) x propagate/obey policy pairs: all timely schedules with <= d deviations; per filter shutdown-once-iff-setup, sockets closed, stop event set, run() returns/raises; pipeline-wide the set of terminating filters equals the closure of the announcement over the connection graph.',
+         E1_NOTE, '4 C08'),
  'C07': ('E1-simnet', 'model_checking', E1_TECH,
          'Splitter with balanced outputs over 2-4 branches, workers of all speed combinations, balanced-sources joiner: all schedules with <= d deviations under arbitrary delays; each id on exactly one branch, rejoined stream duplicate-free, strictly increasing, one id per set.',
          E1_NOTE, '4 C07'),
@@ -68,7 +71,7 @@ T.update({
          E3_NOTE, '4 C17'),
 })
 
-BUILT = ['C01', 'C02', 'C03', 'C04', 'C05', 'C06', 'C07', 'C09', 'C10']
+BUILT = ['C01', 'C02', 'C03', 'C04', 'C05', 'C06', 'C07', 'C08', 'C09', 'C10']
 
 def main():
     checks = []
